@@ -163,6 +163,15 @@ PROPS["C12"] = {
     "assumptions": ["crashes inside pion reachable only with live DTLS/SRTP traffic are out of reach"],
 }
 
+PROPS["C17"] = {
+    "units": [
+        rapid("auth-matrix", "webserver", "TestVerif_C17_AuthMatrix", 300, 2500),
+        rapid("update-preservation", "webserver", "TestVerif_C17_UpdatePreservation", 150, 1200),
+    ],
+    "technique": "property-based testing (rapid) of the real HTTP server over raw TCP against an independent authorisation model; marker scan; structural diff of the on-disk JSON",
+    "assumptions": ["one server per test process (package-level mux and directories); cases use fresh group names"],
+}
+
 NOT_APPLICABLE = {}
 
 ENGINES = [
